@@ -100,9 +100,18 @@ func (h *fileHistory) Write(s string) (int, error) {
 		return h.Len(), err
 	}
 
-	f, err := os.OpenFile(h.file, os.O_APPEND|os.O_CREATE|os.O_WRONLY, 0o600)
+	f, err := os.OpenFile(h.file, os.O_APPEND|os.O_CREATE|os.O_RDWR, 0o600)
 	if err != nil {
 		return 0, fmt.Errorf("%w: %s", errOpenHistoryFile, err.Error())
+	}
+
+	// A previous append might have been interrupted (process killed):
+	// start on a new line, or our entry is lost with the torn one.
+	if info, serr := f.Stat(); serr == nil && info.Size() > 0 {
+		last := make([]byte, 1)
+		if _, rerr := f.ReadAt(last, info.Size()-1); rerr == nil && last[0] != '\n' {
+			data = append([]byte{'\n'}, data...)
+		}
 	}
 
 	_, err = f.Write(append(data, '\n'))
